@@ -27,11 +27,43 @@ def load_contracts():
         importlib.import_module("contracts." + m.name)
 
 
-def generate(qualnames, tier="quick"):
+def filtered(c, exclude):
+    """A copy of the contract without the loop clauses / ghosts whose names start with one of `exclude`."""
+    import copy
+
+    if not exclude:
+        return c
+    c2 = copy.copy(c)
+    c2.loops = {}
+    drop = lambda nm: any(nm.startswith(p) for p in exclude)  # noqa: E731
+    for k, lp in c.loops.items():
+        l2 = copy.copy(lp)
+        l2.inv = {n: e for n, e in lp.inv.items() if not drop(n)}
+        l2.transition = {n: e for n, e in lp.transition.items() if not drop(n)}
+        l2.ghosts = {n: g for n, g in lp.ghosts.items() if not drop(n)}
+        c2.loops[k] = l2
+    c2.ensures = {n: e for n, e in c.ensures.items() if not drop(n)}
+    return c2
+
+
+def generate_lemmas(names):
+    from .contract import LEMMAS
+    from .lemma import lemma_obligations
+
+    out = []
+    for n in names:
+        out.extend(lemma_obligations(LEMMAS[n]))
+    return out
+
+
+def generate(qualnames, tier="quick", exclude=()):
     """-> (obligations, per_function_info)"""
     obligations, info = [], {}
     for q in qualnames:
-        c = CONTRACTS[q]
+        if q not in CONTRACTS:
+            info[q] = {"status": "anchor-mismatch", "reason": "no contract registered"}
+            continue
+        c = filtered(CONTRACTS[q], exclude)
         t0 = time.time()
         try:
             ex = Exec(q, c, tier)
